@@ -477,6 +477,9 @@ fn handle(sh: &Arc<Shared>, mut rq: Request, c: usize, m: usize) {
             }
         }
     }
+    if plan.ans_phase > 0 {
+        world::wait_phase(plan.ans_phase);
+    }
     let a = &plan.ans;
     let xid = Header::from_bytes(&b"X-Id"[..], format!("{}.{}", c, m).as_bytes()).unwrap();
     match a.how.as_str() {
